@@ -184,6 +184,16 @@ def execute(text, spec, inp, mode, values=None, cf=None):
     rep["tensor_digest"] = {var: specmod_digest(_dump_json(d)) for var, d in dumps.items()}
     rep["probes"] = dict(ctx.probes)
     rep["updates"] = ctx.updates
+    # explicit shapes: entry i must be the extent of the root rank of rank id i
+    bad_shapes = []
+    for ids, shape, name in ctx.explicit_shapes:
+        want = []
+        for r in ids:
+            root = r.rstrip("0123456789")
+            want.append(inp["extents"].get(root))
+        if len(shape) != len(ids) or any(w is not None and w != s_ for w, s_ in zip(want, shape)):
+            bad_shapes.append({"tensor": name, "rank_ids": ids, "shape": shape, "expected": want})
+    rep["bad_shapes"] = bad_shapes[:3]
     return rep, ns, ctx
 
 
